@@ -78,6 +78,18 @@ pub fn run(seed: u64, thorough: bool) {
         Line::new("oracle").str("name", "limits_only_restrict").raw("ok", if ok { "true" } else { "false" })
             .raw("variants", &shape.variants_json()).raw("inside", if inside { "true" } else { "false" }).str("result", r.class())
             .num("max_levels", max_levels as u64).emit();
+        if let Out::Ok((sk, _)) = &r {
+            // the aux cache under this build's limits (its arrays are sized by the build's maximum height):
+            // same key pair and signature with a buffer as without, compared with the model as well
+            if li % 3 == 0 || h_of(levels[0].1) as usize == heights[0] {
+                crate::fam_c10::set_model_every(1);
+                let kc = shape.keygen_cost();
+                let valid = crate::fam_c10::keygen_case(&shape, &sd, &vec![0u8; 3000], "c14_fresh", &r, kc, "");
+                let blob = set_counter(sk, 1);
+                let sbase = sign(hash, &blob, b"c14-aux", true, None);
+                crate::fam_c10::sign_case(&shape, &blob, b"c14-aux", &valid, "c14_valid", &sbase, shape.sign_cost(), "");
+            }
+        }
         if let Out::Ok((sk, pk)) = &r {
             let total = 1u64 << shape.total_height();
             for c in [0u64, total / 2, total - 1] {
@@ -117,6 +129,15 @@ pub fn run(seed: u64, thorough: bool) {
         if let Out::Ok((sk, pk)) = &r {
             let total = 1u64 << shape.total_height();
             ok = true;
+            // with an aux buffer as well: the top tree has the largest height this build allows
+            let mut aux = vec![0u8; 100_000];
+            let with_aux = keygen_aux("sha256_256", &levels, &sd, &mut aux);
+            let (s_aux, _) = sign("sha256_256", &set_counter(sk, 1), b"at the limits", true, Some(&mut aux));
+            let (s_plain, _) = sign("sha256_256", &set_counter(sk, 1), b"at the limits", true, None);
+            if with_aux != r || s_aux != s_plain || !matches!(s_plain, Out::Ok(_)) {
+                ok = false;
+                detail = format!("aux: keygen={} sign={} (without aux: {})", with_aux.class(), s_aux.class(), s_plain.class());
+            }
             for c in [0u64, total - 1] {
                 let blob = set_counter(sk, c);
                 let (out, calls) = sign("sha256_256", &blob, b"at the limits", true, None);
@@ -125,7 +146,7 @@ pub fn run(seed: u64, thorough: bool) {
                     Out::Ok(sig) => verify3("sha256_256", b"at the limits", sig, pk).iter().all(|x| *x == Out::Ok(())),
                     _ => false,
                 };
-                if !(verified && calls.len() == 1 && lt == Out::Ok(total - c)) {
+                if !(verified && calls.len() == 1 && lt == Out::Ok(total - c)) && ok {
                     ok = false;
                     detail = format!("c={} sign={} lifetime={:?} verified={}", c, out.class(), lt, verified);
                 }
